@@ -403,7 +403,8 @@ theorem step_resInv {t : Topo} {s s' : State} {l : Label} (hi : ResInv s)
     have hem := hg.2
     split at h
     · split at h <;> cases h
-      exact hi.sub (ResSub.of_eq rfl rfl rfl rfl rfl rfl rfl rfl)
+      exact hi.sub ((ResSub.of_eq rfl rfl rfl rfl rfl rfl rfl rfl :
+        ResSub s { s with upOpen := upd s.upOpen n false }).trans (resSub_shutdownNode t _ n))
     · have hi0 : ResInv { s with inbox := upd s.inbox n ‹List Msg› } :=
         hi.sub (ResSub.of_eq rfl rfl rfl rfl rfl rfl rfl rfl)
       simp only at h
